@@ -217,3 +217,77 @@ func reachesCall(fn *ssa.Function, pred func(name string) bool, seen map[*ssa.Fu
 func isErrorType(t types.Type) bool {
 	return types.Identical(t, types.Universe.Lookup("error").Type())
 }
+
+// goTarget: the function a go statement starts, with the values it shares with its parent — captured
+// variables (closure) or arguments (named function or method).
+type goTarget struct {
+	Go    *ssa.Go
+	Fn    *ssa.Function
+	Outer []ssa.Value // in the parent: binding / argument
+	Inner []ssa.Value // in the target: FreeVar / Parameter
+}
+
+func goTargetOf(g *ssa.Go) *goTarget {
+	switch v := g.Call.Value.(type) {
+	case *ssa.MakeClosure:
+		fn := v.Fn.(*ssa.Function)
+		gt := &goTarget{Go: g, Fn: fn}
+		for i, b := range v.Bindings {
+			gt.Outer = append(gt.Outer, b)
+			gt.Inner = append(gt.Inner, fn.FreeVars[i])
+		}
+		for i, a := range g.Call.Args {
+			if i < len(fn.Params) {
+				gt.Outer = append(gt.Outer, a)
+				gt.Inner = append(gt.Inner, fn.Params[i])
+			}
+		}
+		return gt
+	case *ssa.Function:
+		if v.Blocks == nil {
+			return nil
+		}
+		gt := &goTarget{Go: g, Fn: v}
+		for i, a := range g.Call.Args {
+			if i < len(v.Params) {
+				gt.Outer = append(gt.Outer, a)
+				gt.Inner = append(gt.Inner, v.Params[i])
+			}
+		}
+		return gt
+	}
+	return nil
+}
+
+// goTargetsIn: the goroutines started by fn itself.
+func goTargetsIn(fn *ssa.Function) []*goTarget {
+	var out []*goTarget
+	for _, b := range fn.Blocks {
+		for _, in := range b.Instrs {
+			if g, ok := in.(*ssa.Go); ok {
+				if gt := goTargetOf(g); gt != nil {
+					out = append(out, gt)
+				}
+			}
+		}
+	}
+	return out
+}
+
+// symbolicArgs: parameters of fn as symbolic terms named after the parameters.
+func symbolicArgs(fn *ssa.Function) []*Term {
+	args := make([]*Term, len(fn.Params))
+	for i, prm := range fn.Params {
+		args[i] = &Term{Op: "param", Name: prm.Name(), Typ: prm.Type()}
+	}
+	return args
+}
+
+func isNetRead(name string) bool {
+	return strings.HasPrefix(name, "(*net.") && strings.Contains(name, ").Read")
+}
+
+// readsSocket: fn (or an in-module callee) reads from a net connection.
+func readsSocket(fn *ssa.Function) bool {
+	return reachesCall(fn, isNetRead, map[*ssa.Function]bool{})
+}
